@@ -24,7 +24,8 @@ type op struct {
 	BehTag string
 	Att    string
 	Arg    string
-	N      int    // attack variant
+	N      int    // attack variant / crowd size
+	Crowd  int    // nav, logout: unrelated cookies sent in front on this request only (path-scoped ones)
 	Method string // nav: HTTP method ("" = GET)
 	Scheme string // attacker requests: scheme reported by the proxy ("" = https)
 }
@@ -39,6 +40,8 @@ func (o op) String() string {
 		return fmt.Sprintf("idp(%s)", o.BehTag)
 	case "attack":
 		return fmt.Sprintf("attack(%s,b%d,b%d,%q)", o.Att, o.B, o.B2, o.Arg)
+	case "crowd":
+		return fmt.Sprintf("crowd(%d,%s,b%d)", o.N, o.Arg, o.B)
 	}
 	return fmt.Sprintf("%s(b%d)", o.K, o.B)
 }
@@ -112,6 +115,44 @@ type H struct {
 	// so a gap longer than the idle timeout between two presentations ends the session whatever the store did
 	lastSeen map[string]time.Time
 	idleDead map[string]int
+}
+
+// crowdInFront puts n unrelated cookies in front of the request's Cookie header.
+func crowdInFront(req *sim.Req, n int) {
+	if n <= 0 {
+		return
+	}
+	var parts []string
+	for i := 0; i < n; i++ {
+		parts = append(parts, fmt.Sprintf("lo%02d=v%d", i, i))
+	}
+	if c := req.Headers["cookie"]; c != "" {
+		parts = append(parts, c)
+	}
+	req.Headers["cookie"] = strings.Join(parts, "; ")
+}
+
+// addBrowser adds one more browser to the history.
+func (h *H) addBrowser() {
+	h.bs = append(h.bs, h.w.NewBrowser(fmt.Sprintf("x%d", len(h.bs))))
+	h.lastLoc = append(h.lastLoc, "")
+	h.pending = append(h.pending, "")
+	h.lastTgt = append(h.lastTgt, "")
+}
+
+// crowdCookies gives the second browser n further unrelated cookies, most of them older than the session cookie.
+func (h *H) crowdCookies(n int) {
+	if len(h.bs) < 2 {
+		return
+	}
+	for i := 0; i < n; i++ {
+		ck := fmt.Sprintf("pref%02d=%d", i, i*7)
+		if i%5 == 4 {
+			h.bs[1].After = append(h.bs[1].After, ck)
+		} else {
+			h.bs[1].Extra = append(h.bs[1].Extra, ck)
+		}
+	}
 }
 
 func newH(c *sim.Case, w *sim.World, nb int, mons ...monitor) *H {
@@ -457,6 +498,7 @@ func (h *H) exec(o *op) {
 		h.lastTgt[o.B] = o.Target
 		req := b.ReqFor(o.Target)
 		req.Method = o.Method
+		crowdInFront(&req, o.Crowd)
 		s := h.do(o, b, req)
 		if h.w.IsLoginRedirect(s.R) {
 			h.lastLoc[o.B] = s.R.Location()
@@ -501,10 +543,44 @@ func (h *H) exec(o *op) {
 			// the same cookies without the optional space after ';' (servers are to accept both forms)
 			req.Headers["cookie"] = strings.ReplaceAll(req.Headers["cookie"], "; ", ";")
 		}
+		crowdInFront(&req, o.Crowd)
 		h.do(o, b, req)
+	case "crowd":
+		// o.N further browsers turn up, each starting a login of its own ("start"), going as far as the provider's
+		// answer ("pending") or completing it ("full"): whatever the service keeps per login or per session is filled
+		// well beyond a handful of entries. With o.B2 == 1 the callback of the last of them is then delivered under
+		// browser o.B's cookie.
+		last := -1
+		for i := 0; i < o.N; i++ {
+			h.addBrowser()
+			last = len(h.bs) - 1
+			switch o.Arg {
+			case "full":
+				h.exec(&op{K: "login", B: last, Target: "/crowd"})
+			case "pending":
+				h.exec(&op{K: "nav", B: last, Target: "/crowd"})
+				h.exec(&op{K: "authorize", B: last})
+			default:
+				h.exec(&op{K: "nav", B: last, Target: "/crowd"})
+			}
+		}
+		if o.B2 == 1 && last >= 0 && h.pending[last] != "" {
+			cb := h.pending[last]
+			h.do(&op{K: "attack", B: o.B, B2: last, Att: "replay-callback"}, b, b.ReqFor(cb))
+		}
 	case "advance":
 		d := o.D
-		if o.Rel == "idle" {
+		if o.Rel == "frac" {
+			// a tenth-fraction of the shortest session limit (ten minutes when there is none): sessions kept alive
+			// over several such periods
+			base := 10 * time.Minute
+			if i := h.w.Opts.Idle; i > 0 {
+				base = i
+			} else if a := h.w.Opts.Abs; a > 0 {
+				base = a
+			}
+			d = base / 10 * o.D
+		} else if o.Rel == "idle" {
 			// to a drawn offset from the idle limit of the browser's session (a plain advance when there is none)
 			if d < 0 {
 				d = -d
@@ -733,7 +809,10 @@ type opProfile struct {
 }
 
 func genAdvance(c *sim.Case, o *op) {
-	switch sim.Weighted(c, "adv.kind", 3, 4, 3, 1, 2) {
+	switch sim.Weighted(c, "adv.kind", 3, 4, 3, 1, 2, 2) {
+	case 5:
+		o.Rel = "frac"
+		o.D = time.Duration([]int{4, 8, 8, 9}[sim.Pick(c, "adv.frac", 4)])
 	case 4:
 		o.Rel = "idle"
 		o.D = []time.Duration{-5 * time.Second, -2 * time.Second, 2 * time.Second, 5 * time.Second, time.Minute}[sim.Pick(c, "adv.idle", 5)]
@@ -762,6 +841,7 @@ func genOps(c *sim.Case, p opProfile, maxOps int) []op {
 			o.K, o.Target = "nav", genTarget(c, "t")
 			// what the service decides does not depend on the method of the request it is asked about
 			o.Method = []string{"", "", "", "", "", "", "POST", "POST", "HEAD", "PUT", "OPTIONS", "DELETE"}[sim.Pick(c, "method", 12)]
+			o.Crowd = sim.Tail(c, "nav.crowd", 1, 24)
 		case 1:
 			o.K, o.Target = "login", genTarget(c, "t")
 		case 2:
@@ -771,6 +851,7 @@ func genOps(c *sim.Case, p opProfile, maxOps int) []op {
 		case 4:
 			o.K = "logout"
 			o.N = sim.Pick(c, "logout.compact-cookies", 2)
+			o.Crowd = sim.Tail(c, "logout.crowd", 1, 24)
 		case 5:
 			o.K = "advance"
 			genAdvance(c, &o)
@@ -798,6 +879,11 @@ func genOps(c *sim.Case, p opProfile, maxOps int) []op {
 			}
 		}
 		ops = append(ops, o)
+	}
+	if sim.Weighted(c, "crowd", 5, 1) == 1 {
+		o := op{K: "crowd", B: sim.Pick(c, "crowd.b", p.browsers), N: 2 + sim.Tail(c, "crowd.n", 10, 44), Arg: sim.PickStr(c, "crowd.mode", "start", "pending", "full"), B2: sim.Pick(c, "crowd.cross", 2)}
+		at := sim.Pick(c, "crowd.at", len(ops)+1)
+		ops = append(ops[:at], append([]op{o}, ops[at:]...)...)
 	}
 	return ops
 }
